@@ -283,6 +283,12 @@ func (eng *Engine) verifyFunction(p *Pkg, key string, ct *Contract) (res *FuncRe
 		res.Unsupported = "function " + key + " not found in package " + p.PkgPath + " (contract is stale)"
 		return res
 	}
+	if ct != nil && ct.Shape != "" {
+		if now := shapeOf(p, decl, sig); now != ct.Shape {
+			res.Unsupported = "contract is stale: the shape of the function (receiver / parameter / result names and types, loop forms, number of function literals) is not the one the contract was written for - was `" + ct.Shape + "`, is `" + now + "`"
+			return res
+		}
+	}
 	fc := &FnCtx{eng: eng, pkg: p, fn: f, decl: decl, body: decl.Body, ct: ct, key: res.Key, smt: newSMT(),
 		loopOrd: map[ast.Stmt]int{}, boxed: map[types.Object]bool{}, occ: map[string]map[token.Pos]int{}, info: p.TypesInfo,
 		paramsEntry: map[string]Val{}, isClosure: isClosure}
@@ -1028,4 +1034,51 @@ func (eng *Engine) isFuncName(name string) bool {
 		}
 	}
 	return eng.funcNames[name]
+}
+
+// shapeOf: what a contract's text silently depends on - the names and types of receiver, parameters and results
+// (clauses name them), the loops in syntactic order with their form (loop clauses go by ordinal) and the number of
+// function literals (`Outer$N` goes by ordinal). Recorded in the contract as `shape ...` by `govc shapes`; a body whose
+// shape differs is reported as not verified instead of being checked against a contract written for another body.
+func shapeOf(p *Pkg, decl *ast.FuncDecl, sig *types.Signature) string {
+	rel := func(t types.Type) string { return typeTextRel(t, p) }
+	var b strings.Builder
+	b.WriteString("sig=")
+	if r := sig.Recv(); r != nil {
+		b.WriteString("(" + r.Name() + " " + rel(r.Type()) + ")")
+	}
+	tup := func(t *types.Tuple) {
+		b.WriteString("(")
+		for i := 0; i < t.Len(); i++ {
+			if i > 0 {
+				b.WriteString(",")
+			}
+			b.WriteString(t.At(i).Name() + " " + rel(t.At(i).Type()))
+		}
+		b.WriteString(")")
+	}
+	tup(sig.Params())
+	tup(sig.Results())
+	var loops []string
+	lits := 0
+	ast.Inspect(decl.Body, func(x ast.Node) bool {
+		switch s := x.(type) {
+		case *ast.ForStmt:
+			switch {
+			case s.Init != nil || s.Post != nil:
+				loops = append(loops, "for3")
+			case s.Cond != nil:
+				loops = append(loops, "forc")
+			default:
+				loops = append(loops, "for0")
+			}
+		case *ast.RangeStmt:
+			loops = append(loops, "range")
+		case *ast.FuncLit:
+			lits++
+		}
+		return true
+	})
+	fmt.Fprintf(&b, ";loops=%s;lits=%d", strings.Join(loops, ","), lits)
+	return strings.ReplaceAll(b.String(), "\n", " ")
 }
